@@ -225,14 +225,22 @@ def check_nearest(r) -> list[Fail]:
                     fails.append(Fail(f"nearest:{what}:not-the-closest-atom", f"point {p}: atom {i} at {d[p, i]:.6f}, closest is at {dmin[p]:.6f}"))
                     return
 
+    m = None
     try:
+      for phase in ("", ":after-in-place-move")[: 2 if r.get("moved", True) else 1]:
+        if phase:
+            # the SAME objects, moved in place, asked again: answers must follow the current coordinates
+            ens.translate(np.array([0.9, -1.3, 0.4]) * r["spread"] / 1.5)
+            m.coords = np.asarray(m.coords) @ np.array([[0.0, -1.0, 0.0], [1.0, 0.0, 0.0], [0.0, 0.0, 1.0]]) + np.array([-0.7, 0.2, 1.1])
+            n_before = len(fails)
         res = nearest_atom_index(grid, ens, max_dist=cut)
         if res.shape != (ens.n_conformers, len(grid)):
             fails.append(Fail("nearest:ensemble:shape-wrong", f"{res.shape}"))
         else:
             for c in range(ens.n_conformers):
                 verify(res[c], np.asarray(ens.coords[c], dtype=float), "ensemble")
-        m = ml.Molecule(ens[0])
+        if m is None:
+            m = ml.Molecule(ens[0])
         res1 = nearest_atom_index(grid, m, max_dist=cut)
         if np.shape(res1) != (len(grid),):
             fails.append(Fail("nearest:single:shape-wrong", f"{np.shape(res1)}"))
@@ -249,6 +257,11 @@ def check_nearest(r) -> list[Fail]:
             dropped = [p for p in range(len(grid)) if p not in kept and dmin[p] < cut / (1 + eps) * (1 - 1e-9)]
             if dropped:
                 fails.append(Fail(f"prune:{what}:dropped-point-closer-than-cutoff/(1+eps)", f"cut-off {cut} eps {eps}: point {dropped[0]} at {dmin[dropped[0]]:.4f} < {cut / (1 + eps):.4f}"))
+        if phase:
+            for f_ in fails[n_before:]:
+                f_.sig += phase
+        if fails:
+            break
     except Exception as e:
         s = exc_sig(e)
         if s is None:
@@ -355,7 +368,7 @@ def classify_fields(r):
 
 def strat_desc(tier):
     return st.fixed_dictionaries({
-        "seed": st.integers(0, 10**6), "n_atoms": st.integers(2, 12), "n_conf": st.integers(1, 4), "spread": st.sampled_from([1.5, 3.0, 6.0]),
+        "seed": st.integers(0, 10**6), "n_atoms": st.one_of(st.integers(2, 12), st.integers(2, 40)), "n_conf": st.integers(1, 4), "spread": st.sampled_from([1.5, 3.0, 6.0]),
         "gpad": st.sampled_from([0.0, 1.0, 3.0]), "gspacing": st.sampled_from([1.0, 0.7, 1.5]), "cut": st.sampled_from([2.0, 1.0, 3.5, 0.5]), "eps": st.sampled_from([0.5, 0.0, 0.1, 1.0]),
         "weighted": st.booleans(),
     })
